@@ -96,6 +96,19 @@ def specs(tier, rng):
     for G in F.rand_family(C.scale(400 if tier == 'quick' else 4000), rng):
         ins = set(F.enriched_inputs(G, 2, extra_len=3, rng=rng, alphabet=('X', 'Y', 'Z')))
         out.append({'family': 'F_rand', 'gtext': F.grammar_text(G, term_defs=F.TERM3), 'inputs': sorted(ins)})
+    # LALR merges the look-aheads of states reached in different left contexts: what is acceptable after the shared part
+    # depends on the whole stack (every input of a grammar goes through the same parser instance, one after the other)
+    import itertools
+    merge = [(('s', ('X', 'a', 'Z')), ('s', ('Y', 'a', 'X')), ('a', ('Y',))),
+             (('s', ('X', 'a', 'Z')), ('s', ('Y', 'a', 'X')), ('a', ('Y',)), ('a', ('Y', 'a'))),
+             (('s', ('X', 's', 'X')), ('s', ('Y', 's', 'Y')), ('s', ('Z',))),
+             (('s', ('a', 'X')), ('s', ('Y', 'a', 'Z')), ('a', ('Z',)), ('a', ('Z', 'Z'))),
+             (('s', ('X', 'a', 'b')), ('s', ('Y', 'a', 'Z')), ('a', ('Z',)), ('b', ('X',)), ('b', ()))]
+    for Gb in merge:
+        for perm in itertools.permutations('XYZ'):
+            ren = dict(zip('XYZ', perm))
+            G = tuple((l, tuple(ren.get(x, x) for x in rhs)) for l, rhs in Gb)
+            out.append({'family': 'F_merge', 'gtext': F.grammar_text(G, term_defs=F.TERM3), 'inputs': list(F.all_inputs(4, alphabet=('X', 'Y', 'Z')))})
     for g in HANG_CORPUS:
         out.append({'family': 'corpus-hang', 'gtext': g, 'inputs': list(F.all_inputs(3)), 'budget': 1})
     return out
